@@ -706,9 +706,10 @@ func init() {
 		Explanation: "Decides the structural necessary conditions of 'the signature commits to exactly what is sent and stored': C10-sign — in both flows the signature stored in the certificate is the result of the configured signer's SignHash over cert.PPHashToSign() / cert.FEPHashToSign() of that same certificate object, no covered field is written after the commitment was computed, no successful return of signCertificate bypasses the SignHash call and the aggchain data is written exactly once (no signature cache or shortcut), the signed object is what the flow returns, sendCertificate neither modifies it nor substitutes another object between build, send and JSON serialisation, and the signer fields are written by the constructors only; C10-commit — the byte layout of Certificate.Hash / PPHashToSign / FEPHashToSign ([LAYOUT]) and the construction of their per-exit lists ([LIST]): one element per entry of the exit slice, for the whole range, in order, with the expected element layout, each element in storage of its own (a hoisted, re-sliced buffer makes every chunk alias the last one); GlobalIndex.Hash, GlobalIndexToLittleEndianBytes and the wire encode the same integer bridgesync.GenerateGlobalIndex(flag, rollup, leaf); C10-cover — the set of Certificate fields read by the commitment and identity hashes is computed, and each of them is forwarded by the gRPC conversion, has a JSON key and is restored by UnmarshalJSON; C10-wire — every proto field of the certificate, bridge exit, both claim kinds and their proofs/leaves takes the same-named source field (rename table Rer/Mer/DestNetwork/…; both claim kinds agree on the shared fields), exits converted element-wise in order, siblings positional, leaf type mapping; C10-json — for each type with a hand-written codec the key set written equals the key set read, UnmarshalJSON assigns every field from the decoded field of the same name and MarshalJSON fills every key from it; C10-hashfields — each Hash() of the nested types reads every field of its struct except an explicit, reasoned table. Not decided: collision-freeness beyond 'the field is read into the hash input'. Added after the sub-agent rounds: C10-selector (the tagged-union decoders choose the variant by the presence of a key only that variant's encoder writes), C10-wire#fields-set-on-every-path (a protobuf field is left unset only when the very source it forwards is nil/empty), C10-alias.",
 		Rules: []Rule{
 			{ID: "C10-cut", Floor: 13, Run: shared("C10-cut", c17Filter), Text: "(shared with C17-filter) a range cut copies every other build parameter (retry count included: the stored copy of a resized retry must be storable)"},
+			{ID: "C10-record", Floor: 9, Run: shared("C10-record", c02Store), Text: "(shared with C02-store) the stored header takes height, exit roots and id from the certificate that was sent (the previous LER from that object on every path)"},
 			{ID: "C10-sign", Floor: 16, Run: c10Sign, Text: "[PROV]+[DOM]+[WHO] sign-after-build over the commitment of the same object; no late mutation; same object sent and stored"},
 			{ID: "C10-commit", Floor: 20, Run: c10Commit, Text: "[LAYOUT]+[LIST] byte layout of Hash / PPHashToSign / FEPHashToSign; per-exit lists: one element per exit, whole range, in order, own storage"},
-			{ID: "C10-alias", Floor: 4, Run: c10Alias, Text: "[LIST] repository-wide: no []byte list element shares a loop-carried buffer"},
+			{ID: "C10-alias", Floor: 40, Run: c10Alias, Text: "[LIST] repository-wide: no []byte list element shares a loop-carried buffer"},
 			{ID: "C10-cover", Floor: 5, Run: c10Cover, Text: "computed commitment read set ⊆ wire ∩ JSON"},
 			{ID: "C10-wire", Floor: 40, Run: func(c *core.Ctx) { c10Wire(c); c10WireUnconditional(c) }, Text: "[FIELDMAP] proto conversion field by field"},
 			{ID: "C10-selector", Floor: 4, Run: c10Selector, Text: "tagged-union decoders choose the variant by key presence, with a key only that variant's encoder writes"},
@@ -833,8 +834,131 @@ func commitRule(c *core.Ctx, rule string, only map[string]bool) {
 // c10Alias: repository-wide: a []byte stored as an element of a list inside a loop must not share its backing array with
 // the elements stored by other iterations (otherwise every element ends up holding the last iteration's bytes and
 // the hash / message built from the list no longer depends on the earlier entries).
+// bigIntMutators: methods of *big.Int that write their receiver.
+var bigIntMutators = map[string]bool{"Add": true, "Sub": true, "Mul": true, "Div": true, "Mod": true, "Quo": true, "Rem": true, "Set": true, "SetBytes": true,
+	"SetUint64": true, "SetInt64": true, "SetString": true, "SetBit": true, "SetBits": true, "Lsh": true, "Rsh": true, "Neg": true, "Abs": true, "Exp": true,
+	"And": true, "Or": true, "Xor": true, "Not": true, "AndNot": true, "DivMod": true, "QuoRem": true, "GCD": true, "ModInverse": true, "Sqrt": true, "Rand": true}
+
+// c10BigInts: amounts and global indexes are *big.Int — shared, mutable objects. A mutating method is only ever called on a
+// big.Int the function created itself (new(big.Int), big.NewInt, or the result of another mutating call on such a value);
+// `total := exits[0].Amount; total.Add(total, x)` would silently change the certificate between signing, sending and storing.
+func c10BigInts(c *core.Ctx) {
+	const rule = "C10-alias"
+	for _, fn := range c.AllFuncs() {
+		k := 0
+		core.Instrs(fn, func(i ssa.Instruction) {
+			cl, ok := i.(*ssa.Call)
+			if !ok || cl.Call.IsInvoke() {
+				return
+			}
+			name := core.CallName(cl)
+			if !strings.HasPrefix(name, "(*math/big.Int).") || !bigIntMutators[strings.TrimPrefix(name, "(*math/big.Int).")] {
+				return
+			}
+			k++
+			visiting := map[*ssa.Call]bool{}
+			var fresh func(v ssa.Value, d int) bool
+			fresh = func(v ssa.Value, d int) bool {
+				if d > 8 {
+					return false
+				}
+				for _, lf := range phiLeaves(v) {
+					switch x := lf.val.(type) {
+					case *ssa.Alloc:
+					case *ssa.Const:
+						// nil: the call would panic
+					case *ssa.Call:
+						n := core.CallName(x)
+						switch {
+						case n == "math/big.NewInt":
+						case strings.HasPrefix(n, "(*math/big.Int).") && bigIntMutators[strings.TrimPrefix(n, "(*math/big.Int).")]:
+							if visiting[x] {
+								continue // `acc = acc.Add(acc, x)` in a loop: decided by the other operands of the cycle
+							}
+							visiting[x] = true
+							if !fresh(x.Call.Args[0], d+1) {
+								return false
+							}
+						default:
+							return false
+						}
+					case *ssa.Extract:
+						// (z, ok) := new(big.Int).SetString(…)
+						if inner, isCall := x.Tuple.(*ssa.Call); isCall && core.CallName(inner) == "(*math/big.Int).SetString" && fresh(inner.Call.Args[0], d+1) {
+							continue
+						}
+						return false
+					default:
+						return false
+					}
+				}
+				return true
+			}
+			c.Decide(fresh(cl.Call.Args[0], 0), rule, fmt.Sprintf("%s#bigint-%s-%d", core.ShortFn(fn), strings.TrimPrefix(name, "(*math/big.Int)."), k), cl.Pos(),
+				"the big.Int written by this call was created by this function (not reached through a field, parameter or element)")
+		})
+	}
+}
+
+// c10HoistedArrays: a slice of a fixed-size array that lives outside a loop, re-filled and re-sliced in every iteration
+// and then *stored* (into a message field, a list element, a struct), makes every stored slice alias the one array: all
+// entries end up with the bytes of the last iteration. Handing such a slice to a call (Write, copy, Keccak) is fine.
+func c10HoistedArrays(c *core.Ctx) {
+	const rule = "C10-alias"
+	for _, fn := range c.AllFuncs() {
+		k := 0
+		core.Instrs(fn, func(i ssa.Instruction) {
+			sl, ok := i.(*ssa.Slice)
+			if !ok {
+				return
+			}
+			arr, ok := sl.X.(*ssa.Alloc)
+			if !ok {
+				return
+			}
+			if _, isArr := arr.Type().Underlying().(*types.Pointer).Elem().Underlying().(*types.Array); !isArr {
+				return
+			}
+			loop := core.LoopOf(sl)
+			if loop == nil || loop[arr.Block()] {
+				return
+			}
+			// written inside the loop?
+			written := false
+			for _, r := range *arr.Referrers() {
+				switch x := r.(type) {
+				case *ssa.Store:
+					if x.Addr == ssa.Value(arr) && loop[x.Block()] {
+						written = true
+					}
+				case *ssa.IndexAddr:
+					for _, r2 := range *x.Referrers() {
+						if st, isSt := r2.(*ssa.Store); isSt && st.Addr == ssa.Value(x) && loop[st.Block()] {
+							written = true
+						}
+					}
+				}
+			}
+			if !written {
+				return
+			}
+			stored := false
+			for _, r := range *sl.Referrers() {
+				if st, isSt := r.(*ssa.Store); isSt && st.Val == ssa.Value(sl) {
+					stored = true
+				}
+			}
+			k++
+			c.Decide(!stored, rule, fmt.Sprintf("%s#hoisted-array-%d", core.ShortFn(fn), k), sl.Pos(),
+				"a slice of an array that is declared outside the loop and refilled in it is not stored (every stored slice would alias the last iteration's bytes)")
+		})
+	}
+}
+
 func c10Alias(c *core.Ctx) {
 	const rule = "C10-alias"
+	c10BigInts(c)
+	c10HoistedArrays(c)
 	n := 0
 	for _, fn := range c.AllFuncs() {
 		for k, e := range core.SliceElemWrites(fn) {
